@@ -140,6 +140,42 @@ def task(W, payload):
             if not same(list(gs), ls):
                 out["diffs"].append({"stage": "C16", "what": "rolling_sum", "prescribed": True, "impl": str(list(gs)), "model": str(ls), "x": [q(v) for v in x], "n": w,
                                      "task": {"module": "c16", "fn": "task", "payload": payload}})
+    if payload.get("rolling"):
+        # other reductions, chained helpers (the difference helper's NaN head fed to a rolling window) and series spanning many orders of magnitude
+        for _ in range(20):
+            n = r.randint(2, 10)
+            x = [float(Fr(r.randint(-20, 20), 4)) for _ in range(n)]
+            z = r.random()
+            if z < 0.3:
+                x[0] = r.choice([4e16, -1e15, 3e12])          # a huge early value followed by small ones
+            w = r.randint(1, n); per = r.randint(1, max(1, n - 1))
+            xa = jnp.array(x)
+            ser = pd.Series(x)
+            def same2(a, b):
+                a = np.asarray(a, dtype=float); b = np.asarray(b, dtype=float)
+                return a.shape == b.shape and all((math.isnan(u) and math.isnan(v)) or (not math.isnan(u) and not math.isnan(v) and close(u, v, max(1.0, abs(v)), 1e-12)) for u, v in zip(a, b))
+            for fname, jf, pf in (("sum", jnp.sum, lambda s_: s_.rolling(w).sum()), ("mean", jnp.mean, lambda s_: s_.rolling(w).mean()),
+                                  ("max", jnp.max, lambda s_: s_.rolling(w).max()), ("min", jnp.min, lambda s_: s_.rolling(w).min())):
+                # NOTE pandas' own rolling sum/mean use a running total and lose small addends after a huge one: the reference for those two is the
+                # window-by-window definition (sum / mean of each window), which is what "rolling window" means
+                if fname in ("sum", "mean"):
+                    ref = np.array([np.nan] * (w - 1) + [(np.sum(x[i - w + 1:i + 1]) if fname == "sum" else np.mean(x[i - w + 1:i + 1])) for i in range(w - 1, n)])
+                else:
+                    ref = pf(ser).to_numpy()
+                got = np.asarray(sder.get_rolling_reduction(jf, w)(xa))
+                out["evals"] += 1
+                if not same2(got, ref):
+                    fail(out, f"get_rolling_reduction({fname}) differs from the rolling-window {fname}", "c16", payload, x=x, window=w, got=str(list(got)), want=str(list(ref)))
+                # chained: rolling reduction of the difference series (NaN head): only windows that contain a NaN are NaN
+                d = sder.get_rolling_diff(per)(xa)
+                got2 = np.asarray(sder.get_rolling_reduction(jf, w)(d))
+                dd = np.asarray(ser.diff(per).to_numpy(), dtype=float)
+                ref2 = np.array([np.nan] * (w - 1) + [getattr(np, fname)(dd[i - w + 1:i + 1]) for i in range(w - 1, n)])
+                out["evals"] += 1
+                if not same2(got2, ref2):
+                    fail(out, f"get_rolling_reduction({fname}) of get_rolling_diff differs from pandas diff().rolling().{fname}() (a NaN must only affect the windows that contain it)",
+                         "c16", payload, x=x, window=w, periods=per, got=str(list(got2)), want=str(list(ref2)))
+            out["cases"].append(f"roll2:{n}:{per}:{w}:{x}")
     if payload["index"] == 0:
         out["sample"] = {"point_sets": payload["sets"][:3], "lattice": [q(v) for v in LATTICE]}
     return out
